@@ -34,6 +34,7 @@ def run(rep, tier):
     rep.rule('R16.3', 'protected names: every system variable the data model publishes (setGlobal literal starting with a single underscore) is rejected by assign(); init() does not touch the location before that check')
     rep.rule('R16.4', 'Data crosses through the one pair: params and namelist are merged into the event data before the single getDataAsLua conversion that becomes _event.data; every Data read back comes from getLuaAsData')
     rep.rule('R16.5', 'array order: table items that are emitted as an array are ordered by their numeric index (a container keyed by the decimal string orders "10" before "2")')
+    rep.rule('R16.6', 'map keys keep their kind: a compound key is turned into a numeric table index only under a whole-string integer test (isInteger/isNumeric); a prefix-parsing conversion alone (strTo, atoi, strtol accept "3rd", "10.0.0.1") does not decide it')
     rep.assume('value equality for nested values depends on run-time shapes (empty tables, numeric-key maps): not decided')
     fb = facts.FactBase(TUS)
     rep.covered(tus=len(TUS), extracted=fb.extracted, functions=len(fb.funcs))
@@ -89,6 +90,35 @@ def run(rep, tier):
         has_eval = any(s.get('callee', {}).get('q', '').endswith('luaEval') for x in st for s in sub(x))
         wraps = any(s['k'] == 'StringLiteral' and s.get('str', '').startswith('return') for x in st for s in sub(x))
         rep.check(has_num and has_eval and wraps, 'R16.1', 'getDataAsLua|INTERPRETED', locstr(by['INTERPRETED']['node']), 'interpreted atoms: numeric literal test %s, otherwise evaluated as `return(<atom>)` %s' % (has_num, has_eval and wraps))
+
+    # ---- R16.6
+    nidx = 0
+    for n in d2l.walk():
+        if n['k'] == 'CXXOperatorCallExpr' and n.get('op') == '[]' and 'LuaRef' in n.get('callee', {}).get('q', '') and len(n.get('c', [])) > 2:
+            it = (strip(n['c'][2]) or {}).get('t', '')
+            if it.replace('const ', '').strip() not in ('long', 'int', 'unsigned long', 'unsigned int', 'size_t', 'long long', 'uint32_t', 'int32_t', 'int64_t'):
+                continue
+            nidx += 1
+            guarded = False
+            child = n
+            for a in d2l.ancestors(n):
+                if a['k'] == 'IfStmt':
+                    kids = [c for c in a['c'] if c is not None]
+                    in_then = len(kids) > 1 and any(x.get('id') == n['id'] for x in sub(kids[1]))
+                    if in_then:
+                        conj = []
+                        st = [strip(kids[0])]
+                        while st:
+                            x = strip(st.pop())
+                            if x['k'] == 'BinaryOperator' and x.get('op') == '&&':
+                                st += [x['c'][0], x['c'][1]]
+                            else:
+                                conj.append(x)
+                        if any(c_['k'] in ('CallExpr',) and c_.get('callee', {}).get('q', '').split('::')[-1] in ('isInteger', 'isNumeric') for c_ in conj):
+                            guarded = True
+            rep.check(guarded, 'R16.6', 'getDataAsLua|numeric index#%d' % nidx, locstr(n), 'the store `%s` with a numeric index is %s' % (
+                fb.text(n)[:50], 'made only for keys that pass a whole-string integer test' if guarded else 'NOT guarded by isInteger/isNumeric: keys such as "3rd" or "10.0.0.1" become array indices'))
+    rep.minimum('R16.6', nidx, 1, 'numeric-index stores in getDataAsLua')
 
     # ---- R16.3
     published = set()
